@@ -101,14 +101,17 @@ def run_scenarios(res, build, fn, params_list, jobs=16, chunksize=None, chunk_ti
                 finally:
                     os._exit(code)
             running[pid] = (idx, time.time())
-        try:
-            pid, status = os.waitpid(-1, os.WNOHANG)
-        except ChildProcessError:
-            pid = 0
-            if running:
-                for p_, (idx, _t) in list(running.items()):
-                    collect(idx, "lost")
-                running.clear()
+        # (only this function's own workers are waited for: a child some other thread of the check started - a long unit-driver
+        # run beside the scenarios - must keep its exit status for whoever started it)
+        pid, status = 0, 0
+        for p_ in list(running):
+            try:
+                rp, st_ = os.waitpid(p_, os.WNOHANG)
+            except ChildProcessError:
+                rp, st_ = p_, "lost"
+            if rp:
+                pid, status = rp, st_
+                break
         if pid and pid in running:
             idx, _t = running.pop(pid)
             collect(idx, status)
